@@ -833,9 +833,11 @@ class Task:
         value = _to_list(value)
         _check_no_nones_in_list(value, 'predecessors')
 
+        value = [v for i, v in enumerate(value) if not any(v is w for w in value[:i])]
         parents = self.all_parents
+        children = self.all_children
         for v in value:
-            if v in parents:
+            if v is self or v in parents or v in children:
                 raise RuntimeError("Can't set parent as predecessor")
 
         for v in value:
@@ -879,9 +881,11 @@ class Task:
         value = _to_list(value)
         _check_no_nones_in_list(value, 'successors')
 
+        value = [v for i, v in enumerate(value) if not any(v is w for w in value[:i])]
         parents = self.all_parents
+        children = self.all_children
         for v in value:
-            if v in parents:
+            if v is self or v in parents or v in children:
                 raise RuntimeError("Can't set parent as successor")
 
         for v in value:
